@@ -15,14 +15,15 @@ ID = "C16"
 MOD = "harness.props.c16"
 T = "MetadorModel.C16."
 LEAN = dict(
-    modules=["MetadorModel.Props.C16", "MetadorModel.Bridge.PluginRef"],
+    modules=["MetadorModel.Props.C16", "MetadorModel.Bridge.PluginRef", "MetadorModel.Bridge.Metaclass"],
     theorems=[T + n for n in [
         "eq_iff_same", "hash_consistent", "operators_are_lex", "le_refl", "le_antisymm", "le_trans",
         "le_total", "lt_irrefl", "lt_iff_le_not_eq", "gt_iff_lt_swap", "ge_iff_le_swap", "trichotomy",
         "supports_iff", "versions_sorted_all", "versions_order_independent", "resolve_spec",
         "resolve_none_iff", "resolve_latest", "epname_roundtrip", "qualname_has_no_separator",
-        "legacy_lt_not_irreflexive"]]
-    + ["MetadorModel.Bridge.PluginRef." + n for n in ["gen_eq", "gen_ge", "gen_supports", "gen_hashKey", "gen_cmp_ops"]],
+        "legacy_lt_not_irreflexive", "marked_base_refused"]]
+    + ["MetadorModel.Bridge.PluginRef." + n for n in ["gen_eq", "gen_ge", "gen_supports", "gen_hashKey", "gen_cmp_ops"]]
+    + ["MetadorModel.Bridge.Metaclass.gen_newRaises"],
     drivers=["drv_plg"],
 )
 
@@ -31,7 +32,8 @@ def translate(ctx):
     import os
     text = tr.gen_pluginref()
     changed = lean.write_if_changed(os.path.join(lean.LEAN, "MetadorModel", "Gen", "PluginRef.lean"), text)
-    return "Gen/PluginRef.lean %s" % ("rewritten" if changed else "unchanged")
+    changed2 = lean.write_if_changed(os.path.join(lean.LEAN, "MetadorModel", "Gen", "Metaclass.lean"), tr.gen_metaclass())
+    return "Gen/PluginRef.lean %s, Gen/Metaclass.lean %s" % ("rewritten" if changed else "unchanged", "rewritten" if changed2 else "unchanged")
 
 
 def hx(s):
@@ -177,18 +179,47 @@ def impl(case):
             vers = schemas.versions(name)[-1].version
             fixed = schemas.get(name, vers)
             res = []
-            for base, want_err in ((marked, True), (fixed, False)):
+            for bases, want_err in (((marked,), True), ((fixed,), False)):
                 try:
-                    type(base)("Sub", (base,), {})
+                    type(marked)("Sub", bases, {})
                     res.append("ok")
                 except TypeError:
                     res.append("TypeError")
                 if (res[-1] == "TypeError") != want_err:
-                    oracle.append(dict(kind="marked-subclassing", name=name, marked=want_err, got=res[-1]))
+                    oracle.append(dict(kind="marked-subclassing", name=name, marked_position=[0] if want_err else [], nbases=1, got=res[-1]))
             if not UndefVersion._is_marked(marked) or UndefVersion._is_marked(fixed):
                 oracle.append(dict(kind="marking-wrong", name=name))
             out = None
             tags.append("marked")
+        # every base position, with further bases (a plugin group whose classes allow multiple inheritance)
+        from metador_core.plugin.interface import PluginGroup
+        from metador_core.plugin.metaclass import PluginMetaclassMixin
+
+        Base = PluginMetaclassMixin("VTBase", (), {})
+        ns = {}
+        exec("class VTMGroup(PluginGroup):\n    class Plugin:\n        name = 'vtm'\n        version = (0, 1, 0)\n        plugin_class = Base\n"
+             "    def check_plugin(self, ep_name, plugin):\n        pass\n", {"PluginGroup": PluginGroup, "Base": Base}, ns)
+        pgm = ns["VTMGroup"]({})
+        for ver in ((0, 1, 0), (0, 2, 0)):
+            cls = PluginMetaclassMixin("Thing", (Base,), {"Plugin": type("Plugin", (), {"name": "vt.thing", "version": ver})})
+            register_in_group(pgm, cls, violently=True)
+        marked = pgm.get("vt.thing")
+        marked2 = pgm["vt.thing"]
+        fixed = pgm.get("vt.thing", (0, 1, 0))
+        Mix = type("VTMixin", (), {})
+        Mix2 = type("VTMixin2", (), {})
+        variants = [((marked,), True), ((fixed,), False), ((Mix, marked), True), ((marked, Mix), True), ((Mix, Mix2, marked), True),
+                    ((Mix, marked2, Mix2), True), ((Mix, fixed), False), ((fixed, Mix), False), ((Mix, Mix2), False)]
+        for bases, want_err in variants:
+            try:
+                PluginMetaclassMixin("Sub", bases, {})
+                got = "ok"
+            except TypeError:
+                got = "TypeError"
+            if (got == "TypeError") != want_err:
+                oracle.append(dict(kind="marked-subclassing", name="vt.thing", marked_position=[i for i, b in enumerate(bases) if b in (marked, marked2)], nbases=len(bases), got=got))
+        if not UndefVersion._is_marked(marked) or not UndefVersion._is_marked(marked2) or UndefVersion._is_marked(fixed):
+            oracle.append(dict(kind="marking-wrong", name="vt.thing"))
     return dict(out=out, oracle=oracle, tags=tags)
 
 
